@@ -31,7 +31,7 @@ def main():
     open(outh, 'w').write(h); open(outc, 'w').write(c)
     if len(sys.argv) > 5:
         st = L.stats
-        json.dump({'functions': st['functions'], 'node_kinds': st['node_kinds'], 'std_models': sorted(st['std_models']), 'externals': sorted(st['externals']), 'stubs': sorted(L.stubs.keys())}, open(sys.argv[5], 'w'), indent=1)
+        json.dump({'functions': st['functions'], 'node_kinds': st['node_kinds'], 'std_models': sorted(st['std_models']), 'externals': sorted(st['externals']), 'stubs': sorted(L.stubs.keys()), 'loop_bounds': st.get('loop_bounds', [])}, open(sys.argv[5], 'w'), indent=1)
 
 if __name__ == '__main__':
     main()
